@@ -2,6 +2,7 @@ package boxes
 
 import (
 	"fmt"
+	"math"
 	"regexp"
 	"strings"
 	"unicode"
@@ -885,6 +886,19 @@ func setContentLists(element *utils.HTMLNode, box Box, style pr.ElementStyle, co
 	}
 }
 
+// clampCounter restricts a counter value to the supported range:
+// "UAs may have implementation-specific limits on the maximum or minimum value of a counter.
+// If a counter reset, set, or increment would push the value outside of that range,
+// the value must be clamped to that range." (https://drafts.csswg.org/css-lists-3/#auto-numbering)
+func clampCounter(value int) int {
+	if value > math.MaxInt32 {
+		return math.MaxInt32
+	} else if value < math.MinInt32 {
+		return math.MinInt32
+	}
+	return value
+}
+
 // Handle the “counter-*“ properties.
 func UpdateCounters(state *tree.PageState, style pr.ElementStyle) {
 	_, counterValues, counterScopes := state.QuoteDepth, state.CounterValues, state.CounterScopes
@@ -897,7 +911,7 @@ func UpdateCounters(state *tree.PageState, style pr.ElementStyle) {
 		} else {
 			siblingScopes.Add(nv.String)
 		}
-		counterValues[nv.String] = append(slice, nv.Int)
+		counterValues[nv.String] = append(slice, clampCounter(nv.Int))
 	}
 
 	for _, nv := range style.GetCounterSet().Values {
@@ -909,7 +923,7 @@ func UpdateCounters(state *tree.PageState, style pr.ElementStyle) {
 			siblingScopes.Add(nv.String)
 			values = append(values, 0)
 		}
-		values[len(values)-1] = nv.Int
+		values[len(values)-1] = clampCounter(nv.Int)
 		counterValues[nv.String] = values
 	}
 
@@ -934,7 +948,7 @@ func UpdateCounters(state *tree.PageState, style pr.ElementStyle) {
 			siblingScopes.Add(ci.String)
 			values = append(values, 0)
 		}
-		values[len(values)-1] += ci.Int
+		values[len(values)-1] = clampCounter(values[len(values)-1] + clampCounter(ci.Int))
 		counterValues[ci.String] = values
 	}
 }
